@@ -55,6 +55,10 @@ struct State {
     max_live: usize,
     /// set when a wait-for cycle has been observed in free/stress mode
     cycle_seen: Option<String>,
+    /// kernel thread ids of the server threads seen at the hooks (for the stall certificate)
+    os_tid: BTreeMap<Tid, i32>,
+    /// the main loop is inside a notification handler
+    in_handler: bool,
 }
 impl State {
     fn new() -> State {
@@ -74,6 +78,8 @@ impl State {
             counts: BTreeMap::new(),
             max_live: 0,
             cycle_seen: None,
+            os_tid: BTreeMap::new(),
+            in_handler: false,
         }
     }
     fn label(&self, t: Tid) -> String {
@@ -213,6 +219,7 @@ fn install_hook() {
         *st.counts.entry(name).or_insert(0) += 1;
         let blocking = matches!(e, Event::VfsWriteWant | Event::VfsReadWant | Event::SalsaWriteWant | Event::TaskStart { .. });
         // bookkeeping that does not depend on the mode
+        st.os_tid.entry(tid).or_insert_with(|| unsafe { libc::syscall(libc::SYS_gettid) as i32 });
         match e {
             Event::SnapshotTaken { task, label } => {
                 st.main = Some(tid);
@@ -222,8 +229,10 @@ fn install_hook() {
                     st.max_live = n;
                 }
             }
+            Event::NotifExit => st.in_handler = false,
             Event::NotifEnter => {
                 st.main = Some(tid);
+                st.in_handler = true;
                 if st.mode == Mode::Controlled {
                     st.running.insert(tid);
                 }
@@ -354,7 +363,67 @@ fn set_mode(mode: Mode) {
     s.cv.notify_all();
 }
 
-const SETTLE_WATCHDOG: Duration = Duration::from_secs(30);
+const SETTLE_WATCHDOG: Duration = Duration::from_secs(12);
+
+/// (state letter, number of the system call the thread is blocked in, context switches so far) of one thread of this process
+fn thread_sample(os: i32) -> Option<(char, String, u64)> {
+    let status = std::fs::read_to_string(format!("/proc/self/task/{}/status", os)).ok()?;
+    let mut state = '?';
+    let mut sw = 0u64;
+    for l in status.lines() {
+        if let Some(r) = l.strip_prefix("State:") {
+            state = r.trim().chars().next().unwrap_or('?');
+        } else if let Some(r) = l.strip_prefix("voluntary_ctxt_switches:").or_else(|| l.strip_prefix("nonvoluntary_ctxt_switches:")) {
+            sw += r.trim().parse::<u64>().unwrap_or(0);
+        }
+    }
+    let sc = std::fs::read_to_string(format!("/proc/self/task/{}/syscall", os)).ok()?;
+    Some((state, sc.split_whitespace().next().unwrap_or("?").to_string(), sw))
+}
+
+/// Stall certificate, used when the server stopped making progress although the wait-for graph over the hooked
+/// acquisition points shows no cycle (a lock taken at a place without a hook). Called with the scheduler in Free
+/// mode, so no server thread is held back by the monitor. The verdict does not rest on elapsed time: the main loop
+/// must be inside a handler, every live snapshot task must have a started thread, and each of these threads must be
+/// asleep in a futex wait, in the same wait (no context switch in between) at two samples - i.e. every thread that
+/// could release what the others wait for is itself blocked. Anything else is no certificate (None).
+fn stall_certificate() -> Option<String> {
+    std::thread::sleep(Duration::from_millis(300));
+    let threads: Vec<(String, i32)> = {
+        let st = sched().st.lock().unwrap_or_else(|p| p.into_inner());
+        if !st.in_handler {
+            return None;
+        }
+        let mut v = Vec::new();
+        let m = st.main?;
+        v.push(("main".to_string(), *st.os_tid.get(&m)?));
+        if st.model.live.is_empty() {
+            return None;
+        }
+        for task in st.model.live.keys() {
+            let th = st.task_of.iter().find(|(_, t)| *t == task).map(|(th, _)| *th)?; // not started: no certificate
+            v.push((st.label(th), *st.os_tid.get(&th)?));
+        }
+        v
+    };
+    let a: Vec<_> = threads.iter().map(|(_, os)| thread_sample(*os)).collect();
+    std::thread::sleep(Duration::from_millis(700));
+    let b: Vec<_> = threads.iter().map(|(_, os)| thread_sample(*os)).collect();
+    let mut desc = Vec::new();
+    for (i, (name, _)) in threads.iter().enumerate() {
+        match (&a[i], &b[i]) {
+            (Some(x), Some(y)) if x == y && x.0 == 'S' && x.1 == libc::SYS_futex.to_string() => desc.push(format!("{} asleep in futex wait", name)),
+            _ => return None,
+        }
+    }
+    // the picture must still be the same set of live tasks
+    let st = sched().st.lock().unwrap_or_else(|p| p.into_inner());
+    if !st.in_handler || st.model.live.len() + 1 != threads.len() {
+        return None;
+    }
+    Some(desc.join(", "))
+}
+const STALL: &str = "every live server thread is blocked outside the hooked acquisition points";
 
 /// wait until every controlled thread is blocked at a decision point or done
 fn wait_settled(extra: impl Fn(&State) -> bool) -> bool {
@@ -499,8 +568,12 @@ fn run_schedule(handler: Handler, tasks: &[TaskKind], prefix: &[usize]) -> Run {
             if Instant::now() > deadline {
                 drop(st);
                 set_mode(Mode::Free);
+                let o = match stall_certificate() {
+                    Some(c) => Outcome::Deadlock(STALL.into(), format!("while bringing task {:?} in flight: {}", k, c)),
+                    None => Outcome::Watchdog(format!("task {:?} never reached its start point", k)),
+                };
                 sess.abandon();
-                return Run { decisions, outcome: Outcome::Watchdog(format!("task {:?} never reached its start point", k)), trace: vec![] };
+                return Run { decisions, outcome: o, trace: vec![] };
             }
             let (g, _) = s_.cv.wait_timeout(st, Duration::from_millis(20)).unwrap_or_else(|p| p.into_inner());
             drop(g);
@@ -522,8 +595,12 @@ fn run_schedule(handler: Handler, tasks: &[TaskKind], prefix: &[usize]) -> Run {
     }
     if !wait_settled(|st| st.main.map(|m| st.pending.contains_key(&m)).unwrap_or(false)) {
         set_mode(Mode::Free);
+        let o = match stall_certificate() {
+            Some(c) => Outcome::Deadlock(STALL.into(), format!("before the handler's first hooked acquisition: {}", c)),
+            None => Outcome::Watchdog("handler never reached its first acquisition".into()),
+        };
         sess.abandon();
-        return Run { decisions, outcome: Outcome::Watchdog("handler never reached its first acquisition".into()), trace: vec![] };
+        return Run { decisions, outcome: o, trace: vec![] };
     }
     // exploration
     let outcome;
@@ -558,6 +635,13 @@ fn run_schedule(handler: Handler, tasks: &[TaskKind], prefix: &[usize]) -> Run {
     }
     let trace = s_.st.lock().unwrap_or_else(|p| p.into_inner()).trace.clone();
     set_mode(Mode::Free);
+    let outcome = match outcome {
+        Outcome::Watchdog(m) => match stall_certificate() {
+            Some(c) => Outcome::Deadlock(STALL.into(), format!("after the grant sequence: {}", c)),
+            None => Outcome::Watchdog(m),
+        },
+        o => o,
+    };
     match outcome {
         Outcome::Completed => {
             // every request answered, the handler's diagnostics published
@@ -621,7 +705,11 @@ fn explore(handler: Handler, tasks: &[TaskKind], ctx: &mut Ctx, max_schedules: u
             Outcome::Watchdog(m) => {
                 ctx.feature("watchdog");
                 ctx.note(format!("watchdog (no verdict): {}", m));
+                return;
             }
+        }
+        if matches!(&run.outcome, Outcome::Deadlock(c, _) if c == STALL) {
+            return; // every further schedule of this scenario would pay the same wait
         }
         // next prefix (stateless DFS)
         let mut d = run.decisions.clone();
@@ -714,14 +802,14 @@ fn stress(unit: u64, ctx: &mut Ctx) {
     ctx.nontrivial(fnv64(format!("{:?}{}", history, seed).as_bytes()));
     // progress: every request answered, then idle; decided by the wait-for monitor, the watchdog alone is no verdict
     let mut unanswered = 0;
-    let deadline = Instant::now() + Duration::from_secs(60);
+    let deadline = Instant::now() + Duration::from_secs(30);
     for id in &ids {
         let left = deadline.saturating_duration_since(Instant::now());
         if sess.wait_response(*id, left.max(Duration::from_millis(10))).is_none() {
             unanswered += 1;
         }
     }
-    let idle = unanswered == 0 && sess.quiesce(Duration::from_secs(60));
+    let idle = unanswered == 0 && sess.quiesce(Duration::from_secs(30));
     let (cycle, waiting) = {
         let st = sched().st.lock().unwrap_or_else(|p| p.into_inner());
         let w = st.pending.clone();
@@ -736,8 +824,18 @@ fn stress(unit: u64, ctx: &mut Ctx) {
                 case,
             ),
             None => {
-                ctx.feature("watchdog");
-                ctx.note(format!("stress session stalled without a wait-for cycle at the hooked points (no verdict); waiting: {:?}", waiting));
+                set_mode(Mode::Free);
+                match stall_certificate() {
+                    Some(c) => ctx.violation(
+                        "deadlock:stress:stall-outside-hooked-points",
+                        format!("{} request(s) unanswered / server not idle; {}: {}", unanswered, STALL, c),
+                        case,
+                    ),
+                    None => {
+                        ctx.feature("watchdog");
+                        ctx.note(format!("stress session stalled without a wait-for cycle at the hooked points (no verdict); waiting: {:?}", waiting));
+                    }
+                }
             }
         }
         set_mode(Mode::Free);
